@@ -445,8 +445,15 @@ func (u *Unit) computeOrdinals(body *ast.BlockStmt) {
 	loopN := 0
 	callN := map[string]int{}
 	litN := 0
+	retN := 0
+	if u.retOrd == nil {
+		u.retOrd = map[*ast.ReturnStmt]int{}
+	}
 	ast.Inspect(body, func(n ast.Node) bool {
 		switch x := n.(type) {
+		case *ast.ReturnStmt:
+			u.retOrd[x] = retN
+			retN++
 		case *ast.ForStmt, *ast.RangeStmt:
 			u.loopOrd[x.(ast.Stmt)] = fmt.Sprint(loopN)
 			loopN++
